@@ -689,6 +689,12 @@ impl BuildJob<'_> {
                     // the target directory.
                     log_err!("{:?}: rename {:?}: {}", t, tmp_name, e);
                     rv = EXIT_BUILD_JOB_ERROR;
+                } else if let Err(e) = remove_tmp(tmp_name) {
+                    // (rename() does nothing at all when both names already are one
+                    // file -- a script that made $3 a hard link of the old target: the
+                    // temporary name is still there and has to go)
+                    log_err!("{:?}: remove {:?}: {}\n", t, tmp_name, e);
+                    rv = EXIT_BUILD_JOB_ERROR;
                 }
             } else {
                 // no output generated at all; that's ok
